@@ -31,10 +31,12 @@ RECURSIVE TrimR(_)
 TrimR(s) == IF s # <<>> /\ IsBlank(s[Len(s)]) THEN TrimR(SubSeq(s, 1, Len(s) - 1)) ELSE s
 Trim(s) == TrimL(TrimR(s))
 
-FirstIdx(s, c) == IF \E i \in DOMAIN s : s[i] = c
-                  THEN CHOOSE i \in DOMAIN s : s[i] = c /\ \A j \in 1..(i - 1) : s[j] # c ELSE 0
-LastIdx(s, c)  == IF \E i \in DOMAIN s : s[i] = c
-                  THEN CHOOSE i \in DOMAIN s : s[i] = c /\ \A j \in (i + 1)..Len(s) : s[j] # c ELSE 0
+RECURSIVE IdxFrom(_, _, _)     \* first index >= i with s[i] = c (0 if none)
+IdxFrom(s, c, i) == IF i > Len(s) THEN 0 ELSE IF s[i] = c THEN i ELSE IdxFrom(s, c, i + 1)
+FirstIdx(s, c) == IdxFrom(s, c, 1)
+RECURSIVE IdxBack(_, _, _)     \* last index <= i with s[i] = c (0 if none)
+IdxBack(s, c, i) == IF i < 1 THEN 0 ELSE IF s[i] = c THEN i ELSE IdxBack(s, c, i - 1)
+LastIdx(s, c) == IdxBack(s, c, Len(s))
 
 \* ------------------------------------------------------------------ rendering
 RECURSIVE JoinWith(_, _)
